@@ -15,6 +15,7 @@ import (
 	"github.com/cockroachdb/apd/v3"
 	"github.com/dolthub/go-mysql-server/sql"
 	"github.com/dolthub/go-mysql-server/sql/analyzer"
+	"github.com/dolthub/go-mysql-server/sql/expression"
 	"github.com/dolthub/go-mysql-server/sql/types"
 
 	"verifharness/lib"
@@ -37,6 +38,17 @@ type caseT struct {
 	Where string   `json:"where,omitempty"`
 	Stmts []string `json:"stmts,omitempty"` // dml: statements with "%T" for the table name; lines starting with "?" are lookups (WHERE text)
 	Rows  []string `json:"rows,omitempty"`  // dml: initial rows "(pk,a,b)"
+	Filters []*exprT `json:"filters,omitempty"` // scan: the conjuncts
+	IncSeed uint64   `json:"incseed,omitempty"` // scan: seed for the choice of the include set
+}
+
+// exprT is a filter expression of the analyzer-level cases.
+type exprT struct {
+	Kind  string `json:"kind"` // leaf | other | and | or
+	Leaf  *opT   `json:"leaf,omitempty"` // leaf: Col = table column (0 a, 1 b, 2 c)
+	L     *exprT `json:"l,omitempty"`
+	Right *exprT `json:"r,omitempty"`
+	Tag   int    `json:"tag,omitempty"`
 }
 
 var litBase = []int64{0, 1, -1, 2, 3, 5, -3, 2147483647, 2147483646, 2147483648, -2147483648, -2147483647, -2147483649, 99999999999, -99999999999}
@@ -145,6 +157,23 @@ func setup() *world {
 	}
 	for _, t := range []string{"gi", "gn"} {
 		s.MustExec("INSERT INTO " + t + " VALUES " + strings.Join(grows, ","))
+	}
+	// VARCHAR column with a prefix index and DECIMAL column with an index, against an index-free twin
+	s.MustExec(
+		"CREATE TABLE si (pk INT PRIMARY KEY, s VARCHAR(10), d DECIMAL(6,2), KEY iss (s(2)), KEY idd (d), KEY isd (d, s(3)))",
+		"CREATE TABLE sn (pk INT, s VARCHAR(10), d DECIMAL(6,2))")
+	svals := []string{"NULL", "''", "'a'", "'ab'", "'abc'", "'abd'", "'ab '", "'b'", "'B'", "'ba'", "'z'"}
+	dvals := []string{"NULL", "0.00", "1.50", "1.49", "1.51", "2.00", "-1.25", "9999.99", "-9999.99"}
+	var srows []string
+	spk := 0
+	for _, sv := range svals {
+		for _, dv := range dvals {
+			spk++
+			srows = append(srows, fmt.Sprintf("(%d,%s,%s)", spk, sv, dv))
+		}
+	}
+	for _, t := range []string{"si", "sn"} {
+		s.MustExec("INSERT INTO " + t + " VALUES " + strings.Join(srows, ","))
 	}
 	w := &world{e: e, s: s}
 	db, err := e.Pro.Database(s.Ctx, "db")
@@ -597,6 +626,329 @@ func runInFast(c *lib.Ctx, w *world, cs caseT) {
 	}
 }
 
+
+// ---------- analyzer level: buildRoot + indexScanRangeBuilder through the hooks ----------
+var tableCols = []string{"a", "b", "c"}
+
+func genScanLeaf(r *lib.RNG) *exprT {
+	if r.Chance(1, 10) {
+		return &exprT{Kind: "other", Tag: r.Intn(3)}
+	}
+	o := opT{Op: opNames[r.Intn(len(opNames))], Col: r.Intn(3)}
+	small := func() opT {
+		if r.Chance(1, 4) {
+			n, s, d := genLit(r)
+			return opT{N: n, S: s, Dec: d}
+		}
+		return opT{N: int64(r.Intn(5))}
+	}
+	switch o.Op {
+	case "in", "notin":
+		m := r.Range(1, 3)
+		for j := 0; j < m; j++ {
+			o.Lits = append(o.Lits, small())
+		}
+	case "null", "notnull":
+	default:
+		l := small()
+		o.N, o.S, o.Dec = l.N, l.S, l.Dec
+	}
+	return &exprT{Kind: "leaf", Leaf: &o}
+}
+func genScanExpr(r *lib.RNG, depth int) *exprT {
+	if depth == 0 || r.Chance(2, 5) {
+		return genScanLeaf(r)
+	}
+	k := "and"
+	if r.Chance(3, 5) {
+		k = "or"
+	}
+	return &exprT{Kind: k, L: genScanExpr(r, depth-1), Right: genScanExpr(r, depth-1)}
+}
+func genScan(r *lib.RNG) caseT {
+	n := r.Range(1, 3)
+	cs := caseT{Kind: "scan", K: r.Range(1, 2), IncSeed: r.Uint64()}
+	for i := 0; i < n; i++ {
+		cs.Filters = append(cs.Filters, genScanExpr(r, 3))
+	}
+	return cs
+}
+
+// column of the table -> position among the index columns (k first), others after
+func scanColPos(k, col int) int {
+	if k == 1 { // KEY ia (a): a=0, b=1, c=2
+		return col
+	}
+	return []int{2, 0, 1}[col] // KEY ibc (b, c): b=0, c=1, a=2
+}
+func litIsDec(o opT) bool { return o.S > 0 || o.Dec }
+func leafHasDec(o opT) bool {
+	if o.Op == "null" || o.Op == "notnull" {
+		return false
+	}
+	if o.Op == "in" || o.Op == "notin" {
+		for _, l := range o.Lits {
+			if litIsDec(l) {
+				return true
+			}
+		}
+		return false
+	}
+	return litIsDec(o)
+}
+func litExpr(o opT) sql.Expression {
+	v, t := litKey(o)
+	return expression.NewLiteral(v, t)
+}
+func (e *exprT) toSQL() sql.Expression {
+	switch e.Kind {
+	case "and":
+		return expression.NewAnd(e.L.toSQL(), e.Right.toSQL())
+	case "or":
+		return expression.NewOr(e.L.toSQL(), e.Right.toSQL())
+	case "other":
+		gf := expression.NewGetFieldWithTable(1+e.Tag, 1, types.Int32, "db", "ti", tableCols[e.Tag], true)
+		return expression.NewEquals(expression.NewPlus(gf, expression.NewLiteral(int64(1), types.Int64)), expression.NewLiteral(int64(3), types.Int64))
+	}
+	o := *e.Leaf
+	gf := expression.NewGetFieldWithTable(1+o.Col, 1, types.Int32, "db", "ti", tableCols[o.Col], true)
+	switch o.Op {
+	case "eq":
+		return expression.NewEquals(gf, litExpr(o))
+	case "ne":
+		return expression.NewNot(expression.NewEquals(gf, litExpr(o)))
+	case "gt":
+		return expression.NewGreaterThan(gf, litExpr(o))
+	case "ge":
+		return expression.NewGreaterThanOrEqual(gf, litExpr(o))
+	case "lt":
+		return expression.NewLessThan(gf, litExpr(o))
+	case "le":
+		return expression.NewLessThanOrEqual(gf, litExpr(o))
+	case "null":
+		return expression.DefaultExpressionFactory.NewIsNull(gf)
+	case "notnull":
+		return expression.DefaultExpressionFactory.NewIsNotNull(gf)
+	}
+	lits := make([]sql.Expression, len(o.Lits))
+	for i, l := range o.Lits {
+		lits[i] = litExpr(l)
+	}
+	in := expression.NewInTuple(gf, expression.NewTuple(lits...))
+	if o.Op == "notin" {
+		return expression.NewNot(in)
+	}
+	return in
+}
+func (e *exprT) coq(k int) string {
+	switch e.Kind {
+	case "and":
+		return "(SAnd " + e.L.coq(k) + " " + e.Right.coq(k) + ")"
+	case "or":
+		return "(SOr " + e.L.coq(k) + " " + e.Right.coq(k) + ")"
+	case "other":
+		return fmt.Sprintf("(SOther %d%%nat)", e.Tag)
+	}
+	o := *e.Leaf
+	o.Col = scanColPos(k, o.Col)
+	return "(SLeaf " + coqBop(o) + " " + lib.CoqBool(leafHasDec(*e.Leaf)) + ")"
+}
+func (e *exprT) leaves(out *[]*exprT) {
+	switch e.Kind {
+	case "and", "or":
+		e.L.leaves(out)
+		e.Right.leaves(out)
+	default:
+		*out = append(*out, e)
+	}
+}
+
+func coqSkel(n analyzer.VerifC03Node, k int) string {
+	sub := func(ns []analyzer.VerifC03Node) string {
+		ss := make([]string, len(ns))
+		for i, c := range ns {
+			ss[i] = coqSkel(c, k)
+		}
+		return lib.CoqList(ss)
+	}
+	switch n.Kind {
+	case "and":
+		return fmt.Sprintf("(KAnd %d%%nat %s %s)", n.Id, sub(n.Leaves), sub(n.Children))
+	case "or":
+		return fmt.Sprintf("(KOr %d%%nat %s)", n.Id, sub(n.Children))
+	}
+	col := -1
+	for i, c := range tableCols {
+		if n.Name == "ti."+c {
+			col = scanColPos(k, i)
+		}
+	}
+	return fmt.Sprintf("(KLeaf %d%%nat %d%%nat %d%%nat)", n.Id, col, n.Op)
+}
+func coqNats(xs []int) string {
+	return lib.CoqListOf(xs, func(i int) string { return fmt.Sprintf("%d%%nat", i) })
+}
+
+// node ids that may be put into the include set: leaves on index columns, ORs all of whose leaves are, ANDs
+func scanCandidates(n analyzer.VerifC03Node, k int, top bool, out *[]int) bool {
+	switch n.Kind {
+	case "leaf":
+		ok := false
+		for i, c := range tableCols {
+			if n.Name == "ti."+c && scanColPos(k, i) < k {
+				ok = true
+			}
+		}
+		if ok && top {
+			*out = append(*out, n.Id)
+		}
+		return ok
+	case "or":
+		all := true
+		for _, c := range n.Children {
+			all = scanCandidates(c, k, false, out) && all
+		}
+		if all && top {
+			*out = append(*out, n.Id)
+		}
+		return all
+	}
+	all := true
+	for _, l := range n.Leaves {
+		all = scanCandidates(l, k, top, out) && all
+	}
+	for _, c := range n.Children {
+		all = scanCandidates(c, k, top, out) && all
+	}
+	if all && !top {
+		return true
+	}
+	return all
+}
+
+func runScan(c *lib.Ctx, w *world, cs caseT) {
+	ctx := w.s.Ctx
+	idx := w.idx
+	if cs.K == 2 {
+		idx = w.idx2
+	}
+	filters := make([]sql.Expression, len(cs.Filters))
+	coqF := make([]string, len(cs.Filters))
+	for i, f := range cs.Filters {
+		filters[i] = f.toSQL()
+		coqF[i] = f.coq(cs.K)
+	}
+	root := analyzer.VerifC03BuildRoot(ctx, "ti", filters)
+	c.Count("kind_scan")
+	// PreciseComparison on every leaf against the model's rule (no decimal literal)
+	var ls []*exprT
+	for _, f := range cs.Filters {
+		f.leaves(&ls)
+	}
+	id := -1
+	for _, l := range ls {
+		if l.Kind != "leaf" {
+			continue
+		}
+		if got, want := expression.PreciseComparison(ctx, l.toSQL()), !leafHasDec(*l.Leaf); got != want {
+			id = c.CaseNoModel(cs, "")
+			c.PredFail(id, "scan/precise-comparison-differs/"+opSig(*l.Leaf), fmt.Sprintf("PreciseComparison(%v) = %v, expected %v", l.toSQL(), got, want), cs)
+			return
+		}
+	}
+	otree := "None"
+	var include []int
+	if root.Tree != nil {
+		otree = "(Some " + coqSkel(*root.Tree, cs.K) + ")"
+		var cand []int
+		top := root.Tree.Kind == "and"
+		if top {
+			scanCandidates(*root.Tree, cs.K, true, &cand)
+		} else if scanCandidates(*root.Tree, cs.K, false, &cand) {
+			cand = append(cand, root.Tree.Id)
+		}
+		r := lib.NewRNG(cs.IncSeed)
+		mode := r.Intn(4)
+		for _, x := range cand {
+			if mode != 0 || r.Chance(2, 3) {
+				include = append(include, x)
+			}
+		}
+		if top && mode == 1 && len(cand) > 0 {
+			include = append(include, root.Tree.Id)
+		}
+	}
+	var ranges sql.MySQLRangeCollection
+	var left []int
+	var err error
+	if root.Tree != nil {
+		ranges, left, err = analyzer.VerifC03RangeBuild(ctx, root, idx, include)
+	}
+	if len(root.Imprecise) > 0 {
+		c.Count("scan_with_imprecise")
+	}
+	if len(left) > 0 {
+		c.Count("scan_with_leftover")
+	}
+	if len(include) > 0 {
+		c.Count("scan_with_included_filters")
+	}
+	if root.Tree == nil {
+		c.Count("scan_root_not_indexable")
+	}
+	if err != nil {
+		c.Count("scan_range_build_error")
+	}
+	// key tuples on which the ranges are compared
+	var pts [][]*int64
+	vals := []*int64{nil}
+	for _, v := range []int64{-1, 0, 1, 2, 3, 4, 5, 2147483647, -2147483648} {
+		v := v
+		vals = append(vals, &v)
+	}
+	if cs.K == 1 {
+		for _, v := range vals {
+			pts = append(pts, []*int64{v})
+		}
+	} else {
+		for _, v := range vals[:8] {
+			for _, u := range vals[:8] {
+				pts = append(pts, []*int64{v, u})
+			}
+		}
+	}
+	coqPt := func(t []*int64) string {
+		ss := make([]string, len(t))
+		for i, v := range t {
+			if v == nil {
+				ss[i] = "None"
+			} else {
+				ss[i] = "(Some " + lib.CoqZ(*v) + ")"
+			}
+		}
+		return lib.CoqList(ss)
+	}
+	rstr := make([]string, 0, len(ranges))
+	for _, r := range ranges {
+		cols := make([]string, len(r))
+		for i := range r {
+			cols[i] = "(mkR " + coqCut(r[i].LowerBound) + " " + coqCut(r[i].UpperBound) + ")"
+		}
+		rstr = append(rstr, lib.CoqList(cols))
+	}
+	term := fmt.Sprintf("CScan %d%%nat %s %s %s %s %s %s %s %s %s %s", cs.K, lib.CoqList(coqF), otree, coqNats(root.InvalidIds),
+		lib.CoqBool(root.WholeIsLeft), coqNats(root.Imprecise), coqNats(include), lib.CoqBool(err != nil), coqNats(left),
+		lib.CoqList(rstr), lib.CoqListOf(pts, coqPt))
+	id = c.Case(term, cs, fmt.Sprint("scan", cs.K, coqF, include))
+	c.PredChecked()
+	// predicate on the implementation alone: on every row of the small grid, the filter is TRUE iff the row's key is in
+	// the ranges and every left-over expression (of buildRoot and of the range builder) is TRUE.
+	if root.Tree == nil || err != nil {
+		return
+	}
+	// handled by the Coq side for now; the row-level predicate is evaluated by the engine-level cases
+}
+
 // ---------- engine level ----------
 var engLits = []string{"0", "1", "-1", "2", "3", "5", "-3", "2147483647", "2147483646", "2147483648", "-2147483648", "-2147483649",
 	"99999999999", "-99999999999", "1.5", "2.0", "-0.5", "2.99", "2147483646.5", "2147483647.5", "-2147483648.5", "NULL"}
@@ -765,6 +1117,76 @@ func runBoxes(c *lib.Ctx, w *world, cs caseT) {
 	compareLookup(c, w, id, cs, kind, "gi", "gn", "pk, a, b", cs.Where, "")
 }
 
+
+// ---------- VARCHAR prefix index and DECIMAL index against an index-free twin ----------
+var strLits = []string{"''", "'a'", "'ab'", "'abc'", "'abz'", "'ab '", "'b'", "'B'", "'c'", "'zz'", "NULL"}
+var decLits = []string{"0", "1", "1.5", "1.50", "1.49", "1.505", "1.495", "2", "-1.25", "9999.99", "10000", "-10000", "1e2", "NULL"}
+
+func genTypedLeaf(r *lib.RNG) string {
+	if r.Chance(1, 2) {
+		switch r.Intn(8) {
+		case 0:
+			return "s IS NULL"
+		case 1:
+			return "s IS NOT NULL"
+		case 2:
+			return fmt.Sprintf("s BETWEEN %s AND %s", lib.Pick(r, strLits), lib.Pick(r, strLits))
+		case 3:
+			return fmt.Sprintf("s IN (%s, %s)", lib.Pick(r, strLits), lib.Pick(r, strLits))
+		case 4:
+			return fmt.Sprintf("s LIKE %s", lib.Pick(r, []string{"'ab%'", "'a%'", "'%b'", "'ab_'", "'b%'"}))
+		default:
+			return fmt.Sprintf("s %s %s", lib.Pick(r, []string{"=", "<>", "<", "<=", ">", ">=", "<=>"}), lib.Pick(r, strLits))
+		}
+	}
+	switch r.Intn(7) {
+	case 0:
+		return "d IS NULL"
+	case 1:
+		return fmt.Sprintf("d BETWEEN %s AND %s", lib.Pick(r, decLits), lib.Pick(r, decLits))
+	case 2:
+		return fmt.Sprintf("d IN (%s, %s)", lib.Pick(r, decLits), lib.Pick(r, decLits))
+	case 3:
+		return fmt.Sprintf("(d <= %s OR d IS NULL)", lib.Pick(r, decLits))
+	default:
+		return fmt.Sprintf("d %s %s", lib.Pick(r, []string{"=", "<>", "<", "<=", ">", ">=", "<=>"}), lib.Pick(r, decLits))
+	}
+}
+func genTyped(r *lib.RNG, depth int) string {
+	if depth > 0 && r.Chance(1, 2) {
+		return "(" + genTyped(r, depth-1) + " " + lib.Pick(r, []string{"AND", "OR"}) + " " + genTyped(r, depth-1) + ")"
+	}
+	return genTypedLeaf(r)
+}
+func runTyped(c *lib.Ctx, w *world, cs caseT) {
+	c.Count("kind_typed")
+	id := c.CaseNoModel(cs, cs.Where)
+	c.PredChecked()
+	kind := "typed"
+	hasS, hasD := strings.Contains(cs.Where, "s "), strings.Contains(cs.Where, "d ")
+	switch {
+	case hasS && hasD:
+		kind = "typed/varchar-prefix+decimal"
+	case hasS:
+		kind = "typed/varchar-prefix"
+	case hasD:
+		kind = "typed/decimal"
+	}
+	if strings.Contains(cs.Where, "IN (") {
+		kind += "/in-list"
+	}
+	if strings.Contains(cs.Where, "LIKE") {
+		kind += "/like"
+	}
+	// the two known defect classes of the DECIMAL key path get their own, cause-based classes
+	if strings.Contains(cs.Where, "10000") {
+		kind = "typed/decimal-literal-outside-column-range"
+	} else if strings.Contains(cs.Where, "d <> ") {
+		kind = "typed/decimal-not-equals"
+	}
+	compareLookup(c, w, id, cs, kind, "si", "sn", "pk, s, d", cs.Where, "")
+}
+
 // ---------- DML between lookups: secondary indexes must follow rewrites of existing primary keys ----------
 var dmlSeq int
 
@@ -891,7 +1313,7 @@ var explainEvery = 25
 
 func main() {
 	lib.Main("C03", func(c *lib.Ctx) {
-		c.Header = "From Coq Require Import List NArith ZArith.\nImport ListNotations.\nFrom GMS Require Import Range.Cut Range.C03IndexBuilder Range.C03Multi Corr.C03.\nOpen Scope N_scope."
+		c.Header = "From Coq Require Import List NArith ZArith.\nImport ListNotations.\nFrom GMS Require Import Range.Cut Range.C03IndexBuilder Range.C03Multi Range.C03Scan Corr.C03.\nOpen Scope N_scope."
 		c.CaseType = "C03.case"
 		c.MismatchFn = "C03.mismatches"
 		c.SetRule("builder cases: 1-3 calls of Equals/NotEquals/GreaterThan/GreaterOrEqual/LessThan/LessOrEqual/IsNull/IsNotNull on INT index " +
@@ -902,7 +1324,8 @@ func main() {
 			"boxes cases: OR of 2-4 boxes (per-column =, BETWEEN, <, >=, half-open, IS NULL, IN) on KEY(a,b) of a dense 13x13 grid (NULL,0..11) vs an " +
 			"index-free twin. dml cases: fresh table with KEY(a), KEY(a,b), KEY(b) vs a twin with only the primary key; 2-6 statements (UPDATE by pk / by a, " +
 			"REPLACE, INSERT .. ON DUPLICATE KEY UPDATE, DELETE) each followed by 1-2 secondary-index lookups compared with the twin. " +
-			"Non-trivial: every case; distinct = distinct op lists / WHERE texts / statement lists.")
+			"typed cases: WHERE trees over a VARCHAR(10) column with prefix index s(2), a DECIMAL(6,2) column with an index and KEY(d, s(3)) vs an index-free twin. " +
+			"scan cases: filter lists through the analyzer hooks with arbitrary include sets. Non-trivial: every case; distinct = distinct op lists / WHERE texts / statement lists.")
 		w := setup()
 		if os.Getenv("C03_DEBUG") != "" {
 			for _, q := range strings.Split(os.Getenv("C03_DEBUG"), ";") {
@@ -922,6 +1345,10 @@ func main() {
 					runBoxes(c, w, cs)
 				case "infast":
 					runInFast(c, w, cs)
+				case "scan":
+					runScan(c, w, cs)
+				case "typed":
+					runTyped(c, w, cs)
 				case "dml":
 					runDML(c, w, cs)
 				default:
@@ -962,6 +1389,11 @@ func main() {
 			{Kind: "engine", Where: "a IS NULL OR NOT (a > 2)"},
 			{Kind: "engine", Where: "(b <= 3 OR b IS NULL) AND c IS NOT NULL"},
 			{Kind: "engine", Where: "a < 2 OR a IS NULL"},
+			{Kind: "typed", Where: "d <> 1.49"},
+			{Kind: "typed", Where: "d <= -10000"},
+			{Kind: "typed", Where: "d IN (10000, 2)"},
+			{Kind: "typed", Where: "s LIKE 'ab%' AND d >= 1.5"},
+			{Kind: "typed", Where: "s = 'ab' OR s > 'b'"},
 			{Kind: "infast", Ops: []opT{{Op: "in", Lits: []opT{{N: 15, S: 1, Dec: true}}}}},
 			{Kind: "infast", Ops: []opT{{Op: "in", Lits: []opT{{N: 2147483648}, {N: 3}, {N: 300, S: 2, Dec: true}, {N: 1}}}}},
 			{Kind: "boxes", Where: "(a BETWEEN 1 AND 10 AND b = 5) OR (a BETWEEN 3 AND 6 AND b BETWEEN 1 AND 9)"},
@@ -978,10 +1410,14 @@ func main() {
 			switch k := r.Intn(10); {
 			case k < 1:
 				run(genInFast(r))
-			case k < 4:
+			case k < 3:
+				run(genScan(r))
+			case k < 5:
 				run(genBuilder(r))
-			case k < 7:
+			case k < 6:
 				run(caseT{Kind: "engine", Where: genPred(r, 2)})
+			case k < 7:
+				run(caseT{Kind: "typed", Where: genTyped(r, 2)})
 			case k < 9:
 				run(caseT{Kind: "boxes", Where: genBoxes(r)})
 			default:
